@@ -48,7 +48,8 @@ struct LcSim;
 static LcSim *g_self;
 static void MIR_NO_RETURN err_func(MIR_error_type_t t, const char *format, ...);
 struct Layout { uint64_t a, a2, k, k2, kspan; };
-static const Layout LAYOUT0 = {0x230000000000ULL, 0x231000000000ULL, 0x240000000000ULL, 0x250000000000ULL, 1ull << 40};
+// code regions deliberately do not start on a 4GB boundary: a displacement or address truncated to 32 bits must not land on mapped code
+static const Layout LAYOUT0 = {0x230000000000ULL, 0x231000000000ULL, 0x240012340000ULL, 0x250012340000ULL, 1ull << 40};
 static void (*g_yield_hook)(int kind) = nullptr;  // tasksim: scheduling point at external calls
 
 struct LcSim : Harness {
@@ -627,7 +628,7 @@ struct LcSim : Harness {
     if (big) { go.sw = true; go.sw_weight = 30; go.recursion = false; }
     go.blocked = r.coin();
     prog::Generator g(r, go); Json prog = g.program(); prog::protect_fuel(prog);
-    for (auto &mo : prog["mods"].a) mo.set("fwd_first", (int) r.coin());
+    for (auto &mo : prog["mods"].a) { mo.set("fwd_first", (int) r.coin()); mo.set("rev", (int) r.coin()); }
     Json ops = Json::array(); size_t nm = prog.at("mods").size();
     auto push = [&](std::initializer_list<Json> l) { Json o = Json::array(); for (auto &x : l) o.push(x); ops.push(o); };
     std::vector<std::string> names; for (auto &mo : prog.at("mods").a) for (auto &f : mo.at("funcs").a) names.push_back(f.gets("name"));
